@@ -7,9 +7,9 @@ Require Import TT.Model.Str TT.Model.C11Validator TT.Spec.C11Spec TT.Proofs.C11P
 Import ListNotations.
 
 (* The full statement (NOT asserted here): for every f64 printing function, every in-domain field whose literal
-   texts carry the declared values and that lies outside the seven known classes is parsed without panic and
+   texts carry the declared values and that lies outside the eight known classes is parsed without panic and
    its chain reads back as exactly the declared constraints. Checked at run time on every generated case
-   outside the classes (seven remain: C11-5 and C11-7 were repaired); proved below for the rendering half
+   outside the classes (eight: C11-5 and C11-7 were repaired, C11-10 was added); proved below for the rendering half
    (all inputs), for the scanning half on canonical single validators (C11_exact_scan_partial), for fields without validators, and refuted
    inside each class. *)
 Definition C11_exact_full_statement : Prop :=
@@ -175,9 +175,11 @@ Theorem C11_kf8_flag_message_refuted : kf_flag_message w8 = true /\ fails w8.
 Proof. exact kf8_refuted. Qed.
 Theorem C11_kf9_f64_inexact_refuted : kf_f64_inexact dispf_small w9 = true /\ fails w9.
 Proof. exact kf9_refuted. Qed.
+Theorem C11_kf10_length_equal_refuted : kf_length_equal w10 = true /\ fails w10.
+Proof. exact kf10_refuted. Qed.
 (* each remaining witness triggers its own class only; the repaired witnesses trigger none *)
 Theorem C11_classes_separate :
-  map (kf_flags dispf_small) [w1; w2; w3; w4; w6; w8; w9] = map (fun i => map (Nat.eqb i) (seq 0 7)) (seq 0 7)
+  map (kf_flags dispf_small) [w1; w2; w3; w4; w6; w8; w9; w10] = map (fun i => map (Nat.eqb i) (seq 0 8)) (seq 0 8)
   /\ map (kf_any dispf_small) [w5; w5b; w7] = [false; false; false].
 Proof. exact witnesses_separate. Qed.
 
@@ -185,7 +187,7 @@ Proof. exact witnesses_separate. Qed.
 Example C11_ex_full_statement_premises :
   forallb (fun f => in_domain f && lits_consistent f && negb (kf_any dispf_small f) &&
                     match field_chain dispf_small f with Ok (_, chain) => c11_field_ok f chain | Panic => false end)
-          [g1; g2; g3] = true.
+          [g1; g2; g3; g4] = true.
 Proof. vm_compute. reflexivity. Qed.
 Example C11_ex_escape : read_str (dq :: escape_js_string (L "a""b\c" ++ [nl; tab; cr]) ++ [dq]) = Some (L "a""b\c" ++ [nl; tab; cr], [])
   /\ escape_js_string (L "a""b\c" ++ [nl]) = L "a\""b\\c\n".
@@ -251,4 +253,5 @@ Print Assumptions C11_fixed7_option_below_vec_ok.
 Print Assumptions C11_fixed7_render_option_element.
 Print Assumptions C11_kf8_flag_message_refuted.
 Print Assumptions C11_kf9_f64_inexact_refuted.
+Print Assumptions C11_kf10_length_equal_refuted.
 Print Assumptions C11_classes_separate.
